@@ -296,11 +296,14 @@ class Harness:
             return ("fails", f"{where}: DiskDict read raised {res.get('err')}: {res.get('msg')}")
 
         if info["other"] is not None:
-            rr = self.srv.call(reader_spec(case, cache2, "cache_only", query=case["other"]))
-            rep.mon("other_entry_readable")
-            a = (rr["result"] or {}).get("attempts", [{}])[0]
-            if not a.get("ok") or a["path"] != info["other"]["path"]:
-                return ("lost_entry", f"{where}: an entry stored before the crash is no longer readable: {a}")
+            # by a reader that is told the layout and by one that guesses it (directory_split='auto', the default)
+            for auto in (False, True):
+                spec = reader_spec(dict(case, reader_split_auto=auto), cache2, "cache_only", query=case["other"])
+                rr = self.srv.call(spec)
+                rep.mon("other_entry_readable")
+                a = (rr["result"] or {}).get("attempts", [{}])[0]
+                if not a.get("ok") or a["path"] != info["other"]["path"]:
+                    return ("lost_entry", f"{where}: an entry stored before the crash is no longer readable{' (reader with directory_split=auto)' if auto else ''}: {a}")
         return None
 
 
